@@ -52,6 +52,11 @@ def find_match_on(body, ty_suffix):
 
 
 def run(ctx):
+    _run_main(ctx)
+    derived_lookup_state_accumulates(ctx)
+
+
+def _run_main(ctx):
     F = ctx.facts
     ctx.explanation = ("Writer/reader variant-map agreement (K5): password storage map is the identity on the Kdf variants; "
                        "every ValueSetT impl's DbValueSetV2 variant is decoded by the same impl; replication reuses the storage "
@@ -250,3 +255,54 @@ def run(ctx):
               f"written {[short(x) for x in wv]} ⊆ read {[short(x) for x in rv]}",
               f"to_dbentry writes {[short(x) for x in wv]} but from_dbentry reads {[short(x) for x in rv]}",
               file=to_db["file"], line=to_db["line"])
+
+
+# ---------------------------------------------------------------------------------------------------------------------
+# "identical behaviour" after a reload includes the state a value set derives from its members while it is decoded. The
+# OAuth2 session set keeps `rs_filter`, the OR of every member's resource-server uuid, and answers remove()/contains() by
+# resource server from it; it takes no part in equality or serialisation, so a decoder that overwrites instead of
+# accumulating yields a value that compares equal and behaves differently. Every write to the field, and to a local that
+# becomes the field, is `|=`; a plain assignment is the reset to u128::MIN (clear) only.
+
+def derived_lookup_state_accumulates(ctx):
+    F = ctx.facts
+    TY = "kanidmd_lib::valueset::session::ValueSetOauth2Session"
+    names = sorted(F.find_fns(LIB, r"valueset::session::ValueSetOauth2Session"))
+    n_acc = 0
+    n_lit = 0
+    for n in names:
+        fn = F.fn(LIB, n)
+        if fn is None or fn.get("test"):
+            continue
+        body = fn["body"]
+        locs = set()
+        for x in walk(body):
+            if x.get("e") == "struct" and def_of(x) == TY:
+                for f in x["fields"]:
+                    if f["f"] == "rs_filter":
+                        n_lit += 1
+                        v = unwrap(f["x"])
+                        if v.get("e") == "path" and "local" in v.get("res", {}):
+                            locs.add(v["res"]["local"])
+        for x in walk(body):
+            if x.get("e") not in ("assign", "assignop"):
+                continue
+            l = unwrap(x["l"])
+            is_field = l.get("e") == "field" and l.get("f") == "rs_filter" and l.get("xty", "").endswith("ValueSetOauth2Session")
+            is_loc = l.get("e") == "path" and l.get("res", {}).get("local") in locs
+            if not (is_field or is_loc):
+                continue
+            if x["e"] == "assignop":
+                ok = x.get("op") == "|="
+            else:
+                r = unwrap(x["r"])
+                ok = r.get("e") == "path" and r.get("res", {}).get("def", "").endswith("<impl u128>::MIN") or (r.get("e") == "lit" and str(r.get("v")) == "0")
+            if ok and x["e"] == "assignop":
+                n_acc += 1
+            ctx.check(ok, "K6-derived-filter-accumulates", fn["fn"], f"rs_filter-write:{x['e']}{x.get('op') or ''}",
+                      "rs_filter |= member resource server (or reset to MIN)",
+                      "the resource-server lookup filter of an OAuth2 session set is overwritten instead of accumulated: after decoding (database, backup, "
+                      "replication) the value compares equal but remove()/contains() by resource server miss every member except the last",
+                      file=fn["file"], line=x.get("line"))
+    ctx.floor("K6-derived-filter-accumulates", "rs_filter accumulation sites", n_acc, 8)
+    ctx.floor("K6-derived-filter-accumulates", "ValueSetOauth2Session literals with rs_filter", n_lit, 4)
